@@ -399,3 +399,27 @@ Definition flat_pack_solvable_io (l : list Z) : list Z :=
 Definition flat_pack_toy_io (l : list Z) : list Z :=
   enc_grid toy_solved ++ enc_blocks toy_blocks_rot ++ enc_blocks toy_blocks_norot.
 (* @export flat_pack_toy_io *)
+
+(* ---------- the generator's own solution ---------- *)
+(* emitted block q (label perm[q]+1) goes back to the top-left corner of its bounding box in the solved grid, its
+   random rotation undone *)
+Definition own_solution (nrb ncb : Z) (sg : list (list Z)) (rots perm : list Z) : list (Z * Z * Z) :=
+  let R := 2 * nrb + 1 in let C := 2 * ncb + 1 in
+  map (fun p => ((4 - znth 0 rots p) mod 4, first_row R C sg (p + 1), first_col R C sg (p + 1))) perm.
+(* every block's bounding-box corner is a placement of the action space: row <= R-3 and col <= C-3 *)
+Definition own_ok_b (nrb ncb : Z) (sg : list (list Z)) : bool :=
+  let R := 2 * nrb + 1 in let C := 2 * ncb + 1 in
+  forallb (fun k => (first_row R C sg (k + 1) <=? R - 3) && (first_col R C sg (k + 1) <=? C - 3)) (zrange (nrb * ncb)).
+
+(* in: nrb ncb, draws (as flat_pack_gen_io) -> [own_ok_b; tiles_b; plays_b of the own solution on the model's blocks]
+   ++ the own solution (k r c per emitted block) *)
+Definition flat_pack_ownsol_io (l : list Z) : list Z :=
+  let (nrb, l) := take1 l in let (ncb, l) := take1 l in
+  let '(cd, rd, rots, perm, _) := dec_draws nrb ncb l in
+  let sg := solved_grid nrb ncb cd rd in
+  let cf := mkC (2 * nrb + 1) (2 * ncb + 1) (nrb * ncb) 0 in
+  let bl := gen_blocks nrb ncb sg rots perm in
+  let sol := own_solution nrb ncb sg rots perm in
+  [b2z (own_ok_b nrb ncb sg); b2z (tiles_b cf bl sol); b2z (plays_b cf bl (sol_actions sol))]
+  ++ concat (map (fun '(k, r, c) => [k; r; c]) sol).
+(* @export flat_pack_ownsol_io *)
